@@ -611,6 +611,30 @@ pub fn run_property(cx: &RunCtx, known: &Known) -> Verdict {
         return algebra::run(cx, known);
     }
     let mut jobs = jobs_for(&cx.prop, cx.thorough);
+    if cx.thorough || !matches!(cx.prop.as_str(), "C01" | "C08" | "C12") {
+        // (quick tier: not for the three sweep-heavy properties, whose code paths C04/C05/C13/C20 share)
+        // many actors: the first job of every instantiation once more with 8 replicas and 40 steps (clocks, witness
+        // sets and remove contexts naming 6-8 actors; registers with 5+ concurrent values), a tenth of the budget
+        let mut seen = std::collections::HashSet::new();
+        let many: Vec<Job> = jobs
+            .iter()
+            .filter(|j| !j.cfg.misuse && j.cfg.policy != 254 && seen.insert(j.sut))
+            .map(|j| {
+                let mut b = j.clone();
+                // (counters and grow-only types are cheap: 11 actors there)
+                b.cfg.nrep = if cx.prop == "C11" { 11 } else { 8 };
+                b.cfg.nsteps = 40;
+                b.n = (j.n / 16).max(100);
+                if let Some(sw) = &mut b.sweep {
+                    sw.next = sw.next.min(4);
+                    sw.causal_ref = sw.causal_ref.min(2);
+                }
+                b.label = "many actors: 8 replicas, 40 steps";
+                b
+            })
+            .collect();
+        jobs.extend(many);
+    }
     if cx.thorough {
         // larger scenarios: one more replica, histories twice as long (a third of the budget each)
         let big: Vec<Job> = jobs
@@ -648,6 +672,13 @@ pub fn run_property(cx: &RunCtx, known: &Known) -> Verdict {
         let (e, d, v, smp) = algebra::serde_types(cx.seed, (40.0 * cx.scale) as u64 + 1);
         extra_evals = e;
         extra_types = json!({"evaluations": e, "distinct_states": d, "types": smp});
+        total.violations.extend(v);
+    }
+    if cx.prop == "C13" {
+        // E2 part: sequences of hundreds of elements (beyond the 128 ops of a replicated-system history)
+        let (e, _d, v, smp) = algebra::long_lists(cx.seed, (24.0 * cx.scale) as u64 + 1);
+        extra_evals = e;
+        extra_types = json!({"evaluations": e, "long_sequences": smp});
         total.violations.extend(v);
     }
     let evals: u64 = eval_keys(&cx.prop).iter().map(|k| total.h.evals.get(k).cloned().unwrap_or(0)).sum::<u64>() + extra_evals;
@@ -707,7 +738,7 @@ pub fn run_property(cx: &RunCtx, known: &Known) -> Verdict {
     }
     evidence["wall_job_s"] = json!(t0.elapsed().as_secs_f64());
     if !extra_types.is_null() {
-        evidence["serde_other_value_types"] = extra_types;
+        evidence[if cx.prop == "C13" { "long_sequences_e2" } else { "serde_other_value_types" }] = extra_types;
     }
     evidence["known_samples"] = json!(total.known_samples.values().take(4).map(|f| json!({"finding": f.finding, "kind": f.kind, "sut": f.sut, "log": f.log})).collect::<Vec<_>>());
     let ks: Vec<Finding> = total.known_samples.values().cloned().collect();
